@@ -3,11 +3,19 @@
 (* Monitor for recorded sync scenarios and handler calls on real nodes     *)
 (* (C19, C04).  Lines:                                                     *)
 (*  [ev: "common", chain, ids, res]  getHighestCommonBlock on a real node  *)
-(*  [ev: "blocks", chain, id, res]   getBlocksFromId                       *)
-(*  [ev: "offer", f: features, outcome, finBefore, finAfter, finalIdsSame] *)
-(*  [ev: "offer2", outcome]  two honest peers, best chain on the other one *)
+(*       ids >= 9000: ids the responder does not have / malformed ids;     *)
+(*       res: 0 = no block, -1 = an id that is not on the chain,           *)
+(*            -2 = the request was refused (error, no answer)              *)
+(*  [ev: "blocks", chain, id, res]   getBlocksFromId (res = <<>> also when *)
+(*       the request was refused)                                          *)
+(*  [ev: "last", chain, res]         getLastBlock                          *)
+(*  [ev: "offer", f: features, outcome, finBefore, finAfter, finalIdsSame, *)
+(*       temp, finEvents, mhpcAfter, ext]                                  *)
+(*  [ev: "offer2", peers, tip, banned, noBan]  several honest peers, the   *)
+(*       block that starts the block synchronisation comes from one of     *)
+(*       them                                                              *)
 (***************************************************************************)
-EXTENDS Sync, Json
+EXTENDS Sync
 
 CONSTANT TraceFile
 TraceLog == ndJsonDeserialize(TraceFile)
@@ -15,21 +23,47 @@ VARIABLE l
 Ev == TraceLog[l]
 ToSet(s) == {s[i] : i \in 1..Len(s)}
 Check(ok, tag, detail) == IF ok THEN TRUE ELSE PrintT(<<"MISMATCH", l, tag, detail>>)
+Cap == 103
+Settled == {"own", "own+ban", "peer"}
 TInit == l = 1 /\ x = <<>>
 TNext ==
   /\ l <= Len(TraceLog)
-  /\ CASE Ev.ev = "common" -> Check(Ev.res = HighestCommon(Ev.chain, ToSet(Ev.ids)), "highest-common", ToJson(HighestCommon(Ev.chain, ToSet(Ev.ids))))
-       [] Ev.ev = "blocks" -> Check(Ev.res = BlocksFrom(Ev.chain, Ev.id, 103), "blocks-from-id", ToJson(BlocksFrom(Ev.chain, Ev.id, 103)))
+  /\ CASE Ev.ev = "common" ->
+            \* ids the responder cannot share (unknown, malformed) never contribute; a request that contains malformed ids
+            \* may also be refused as a whole
+            LET exp == HighestCommon(Ev.chain, ToSet(Ev.ids)) IN
+            Check(Ev.res = exp \/ (Ev.mal = 1 /\ Ev.res \in {0, -2}), "highest-common", ToJson(exp))
+       [] Ev.ev = "blocks" -> Check(BlocksFromOk(Ev.chain, Ev.id, Cap, Ev.res), "blocks-from-id",
+                                    IF OnChain(Ev.chain, Ev.id) THEN ToJson(BlocksFrom(Ev.chain, Ev.id, Cap)) ELSE "no block")
+       [] Ev.ev = "last" -> Check(Ev.res = Ev.chain[Len(Ev.chain)], "last-block", ToJson(Ev.chain[Len(Ev.chain)]))
        [] Ev.ev = "offer" ->
+            LET ff == [a |-> Ev.f.a, b |-> Ev.f.b, common |-> Ev.f.common, fin |-> Ev.f.fin, n |-> Ev.f.n,
+                       genKnown |-> Ev.f.genKnown = 1, slotGap |-> Ev.f.slotGap, behaviour |-> Ev.f.behaviour,
+                       child |-> Ev.f.child = 1]
+                \* everything but a block synchronisation with a faulty peer
+                clean == ~(BlockSyncPath(ff) /\ ff.behaviour # "honest")
+            IN
             \* valid blocks of the peer that were applied before a later one failed may have become final: they stay
-            /\ Check(Ev.outcome \in (IF Ev.finAfter > Ev.f.common /\ Ev.f.behaviour # "honest" THEN {"partial", "partial+ban"} ELSE {}) \cup Outcomes([a |-> Ev.f.a, b |-> Ev.f.b, common |-> Ev.f.common, fin |-> Ev.f.fin, n |-> Ev.f.n,
-                                             genKnown |-> Ev.f.genKnown = 1, slotGap |-> Ev.f.slotGap, behaviour |-> Ev.f.behaviour,
-                                             child |-> Ev.f.child = 1]), "sync-outcome", Ev.outcome)
+            /\ Check(Ev.outcome \in (IF Ev.finAfter > Ev.f.common /\ Ev.f.behaviour # "honest" THEN {"partial", "partial+ban"} ELSE {}) \cup Outcomes(ff), "sync-outcome", Ev.outcome)
+            \* ends ON a chain: nothing of the attempt is left behind, the node goes on from there (it accepts the next
+            \* block of its own, a node that always had exactly these blocks accepts that block too), and after a
+            \* restoration it is the node it was (same database as a twin that was never offered anything, compared
+            \* when the finalized height did not move)
+            /\ Check(Ev.outcome \in Settled /\ clean => Ev.temp = <<>>, "temp-blocks-left", ToJson(Ev.temp))
+            /\ Check(Ev.ext.extended # 0, "cannot-extend", Ev.outcome)
+            /\ Check(Ev.ext.twin # 0, "twin-rejects", Ev.outcome)
+            /\ Check(clean => Ev.ext.dump # 0, "restore-differs", Ev.outcome)
+            \* C04
             /\ Check(Ev.finAfter >= Ev.finBefore, "finalized-height-decreased", ToJson(<<Ev.finBefore, Ev.finAfter>>))
             /\ Check(Ev.finalIdsSame = 1, "finalized-block-replaced", "ids")
-       \* two honest peers, the better chain on the one that did NOT send the triggering block: the node fetches from the
-       \* peer it selected as best and ends on that chain
-       [] Ev.ev = "offer2" -> Check(Ev.outcome = "best", "sync-outcome-two-peers", Ev.outcome)
+            /\ Check(FinalizeChainOk(Ev.finEvents, Ev.finBefore, Ev.finAfter), "finalize-events", ToJson(<<Ev.finBefore, Ev.finAfter>>))
+            /\ Check(Ev.finAfter >= Ev.mhpcAfter, "finalized-behind-precommit", ToJson(<<Ev.finAfter, Ev.mhpcAfter>>))
+       \* several honest peers, all far ahead (block synchronisation): the node fetches from a peer the selection rule
+       \* allows and ends on that peer's chain; peers: the tips of the peers that answer getLastBlock, tip: the id label
+       \* of the chain the node ended on
+       [] Ev.ev = "offer2" ->
+            /\ Check(Ev.tip \in {Ev.peers[i].id : i \in BestPeers(Ev.peers)}, "sync-outcome-two-peers", ToJson({Ev.peers[i].id : i \in BestPeers(Ev.peers)}))
+            /\ Check(Ev.noBan = 1 => Ev.banned = 0, "honest-peer-banned", ToJson(Ev.banned))
   /\ l' = l + 1 /\ UNCHANGED x
 TSpec == TInit /\ [][TNext]_<<l, x>>
 =============================================================================
